@@ -327,6 +327,9 @@ func (d *Decoder) readRef(tag byte) (reflect.Value, error) {
 	}
 
 	ref := d.refList[idx]
+	if so, ok := ref.Interface().(*skippedObject); ok && d.skipping == 0 {
+		return _zeroValue, newCodecError("readRef", "ref %d is an instance of the unregistered class %s, which was skipped with the unknown field that held it", idx, clipName(so.class))
+	}
 
 	// fmt.Printf("----> readRef: %d, %p, %v, %v\n", idx, unsafe.Pointer(ref.Pointer()), ref.Elem().Kind(), ref.Interface())
 	return ref, nil
